@@ -235,7 +235,9 @@ ApplyBase(st, ins) ==
               IN Ok(WithStack(st, <<e[4], e[3], e[2], e[1], d[4], d[3], d[2], d[1]>> \o SubSeq(s, 9, 12) \o <<FAdd(a, F2)>> \o Rest(s, 13)))
     [] op = "adv_pipe" ->
          LET a == At(s, 12) IN
-         IF Len(st.adv) < 8 THEN Fail("AdviceStackReadFailed", 0)
+         \* (when both the address is out of range and the advice stack is too short, which failure is reported is not prescribed)
+         IF Len(st.adv) < 8 /\ (~IsU32(a) \/ ~IsU32(FAdd(a, F1))) THEN Fail("any", 0)
+         ELSE IF Len(st.adv) < 8 THEN Fail("AdviceStackReadFailed", 0)
          ELSE IF ~IsU32(a) \/ ~IsU32(FAdd(a, F1)) THEN Fail("MemoryAddressOutOfBounds", 0)
          ELSE LET d == SubSeq(st.adv, 1, 4)  e == SubSeq(st.adv, 5, 8)
               IN Ok([WithStack(st, <<e[4], e[3], e[2], e[1], d[4], d[3], d[2], d[1]>> \o SubSeq(s, 9, 12) \o <<FAdd(a, F2)>> \o Rest(s, 13))
